@@ -48,6 +48,7 @@ class LoopSpec:
     modifies: list | None = None     # override of the syntactically computed write set (heap lvalues)
     unroll: int | None = None
     exit_asserts: list = field(default_factory=list)   # proved at the normal loop exit, then available after the loop (cuts)
+    derived: list = field(default_factory=list)        # proved from the invariants at an arbitrary loop head, then available (cuts)
 
 
 @dataclass
